@@ -224,12 +224,22 @@ impl Nfa {
         match expr.kind() {
             HirKind::Empty => Ok(accept),
 
-            HirKind::Literal(Literal(l)) => Ok(l.iter().rev().fold(accept, |accept, &b| {
-                let s0 = self.new_state(StateKind::Neither);
-                self.push_edge(s0, Test::byte(b), accept);
-                self.push_edge(s0, Other, reject);
-                s0
-            })),
+            HirKind::Literal(Literal(l)) => {
+                // Classes are walked per code point, so literals must be too:
+                // with the `unicode` feature a literal is UTF-8 text, and a
+                // non-ASCII character has to become one test, not one test
+                // per byte (otherwise `é` is never seen to overlap `\p{L}`).
+                let tests: Vec<Test> = match std::str::from_utf8(l) {
+                    Ok(s) if cfg!(feature = "unicode") => s.chars().map(Test::char).collect(),
+                    _ => l.iter().map(|&b| Test::byte(b)).collect(),
+                };
+                Ok(tests.into_iter().rev().fold(accept, |accept, test| {
+                    let s0 = self.new_state(StateKind::Neither);
+                    self.push_edge(s0, test, accept);
+                    self.push_edge(s0, Other, reject);
+                    s0
+                }))
+            }
 
             HirKind::Class(class) => {
                 match *class {
